@@ -4,9 +4,12 @@ import glob
 import json
 import os
 
+import sys
+
 VERIF = os.path.dirname(os.path.dirname(os.path.abspath(__file__)))
+PREFIX = sys.argv[1] if len(sys.argv) > 1 else "C"
 rows = []
-for p in sorted(glob.glob(os.path.join(VERIF, "seeded", "*", "meta.json"))):
+for p in sorted(glob.glob(os.path.join(VERIF, "seeded", PREFIX + "*", "meta.json"))):
     m = json.load(open(p))
     sid = os.path.basename(os.path.dirname(p))
     det = m.get("detection", {})
